@@ -32,6 +32,15 @@ CHECKS = {
             "label permutations and hash seeds; every verdict is compared by TLC with an exact equivalence decision.",
             "Trusted: TLC, projection. Bounded sizes; the derived family is the part that reaches sink/dead-state pairs.",
             "DESIGN.md section 3 C02"),
+    "C03": ("TLA+ two-object API state machine (FAGen2) enumerated by TLC, replayed through the public API; every "
+            "boolean/rational operation and operator form judged by TraceFA with exact product-reachability "
+            "predicates (IsIntersection, IsDifference, IsUnion, IsComplement relative to the own alphabet) and "
+            "reference constructions (RevA, ConcatA, StarA) compared by Equiv",
+            "Exhaustive within small constants over ordered pairs of epsilon-NFAs/NFAs/DFAs (nondeterministic operands, "
+            "epsilon moves into final states, several start states, overlapping and disjoint alphabets, state names "
+            "colliding across operands, the same object as both operands); each result is decided exactly by TLC.",
+            "Trusted: TLC, projection. The reference constructions are themselves model-checked against word-level "
+            "definitions (AlgebraOK).", "DESIGN.md section 3 C03"),
 }
 
 NOT_YET = "check not built yet in this round (see DESIGN.md section 9, build order); no claim is made"
